@@ -45,6 +45,14 @@ def classify_crash(stderr, rc):
     """-> (key, summary_text)"""
     txt = stderr[-20000:]
     m = re.search(r"ERROR: (AddressSanitizer|LeakSanitizer): ([A-Za-z0-9_\-]+)", txt)
+    if m and m.group(2) == "ABRT":
+        # abort() reported by ASan's signal handler: the cause is whatever called abort
+        m2 = re.search(r"terminate called after throwing an instance of '([^']+)'", txt)
+        if m2:
+            return "uncaught/%s" % m2.group(1), txt[m2.start():m2.start() + 2500]
+        m2 = re.search(r"TBOX_ASSERT\(([^\n]*)\)", txt)
+        if m2:
+            return "assert/%s" % m2.group(1)[:60].replace(" ", ""), txt[-2500:]
     if m:
         kind = m.group(2)
         seg = txt[m.start():]
